@@ -176,6 +176,10 @@ var sharedSpanCtx = trace.ContextWithSpanContext(context.Background(), trace.New
 
 var forceTrickle bool
 
+// forceNoTimer: 0 = random; 1 = timeout 0 with a positive send_batch_size; 2 = send_batch_size 0 with a positive timeout
+// (both: no flush timer, every request must leave at once)
+var forceNoTimer int
+
 // curFile: where the plan of the run being executed is left (removed when the harness ends normally)
 var curFile string
 
@@ -209,8 +213,24 @@ func genPlan(r *Rng, focus string) *runPlan {
 		c.Early = r.Chance(15)
 		failPct, cancelPct = 40, 25
 	case "C09":
-		if c.TimeoutMs == 0 && r.Bool() {
+		if c.TimeoutMs == 0 && r.Chance(30) {
 			c.TimeoutMs = 10
+		}
+		switch forceNoTimer {
+		case 1:
+			c.TimeoutMs = 0
+			c.SendSize = []uint32{2, 3, 5, 8}[r.Intn(4)]
+			if c.MaxSize != 0 && c.MaxSize < c.SendSize {
+				c.MaxSize = c.SendSize
+			}
+		case 2:
+			c.SendSize, c.MaxSize = 0, []uint32{0, 0, 3}[r.Intn(3)]
+			if c.TimeoutMs == 0 {
+				c.TimeoutMs = 10
+			}
+		}
+		if c.TimeoutMs == 0 || c.SendSize == 0 {
+			c.Early = r.Bool() // without a timer every request must leave at once: observable without blocking callers
 		}
 		failPct, cancelPct = 5, 0
 	case "C10":
@@ -253,7 +273,7 @@ func genPlan(r *Rng, focus string) *runPlan {
 			c.TimeoutMs = 5000
 		}
 	}
-	if focus != "C10" && r.Chance(15) {
+	if focus != "C10" && r.Chance(30) {
 		c.MetaKeys = []string{"tenant"}
 		c.MetaLimit = uint32(r.Intn(3))
 	}
@@ -750,6 +770,13 @@ func validate(res *runResult, out *Output, run int, stats map[string]int) {
 	p := res.plan
 	if res.hang != "" {
 		c.fail("C11", "hang", "processor hung (deadlock or lost wake-up): "+strings.SplitN(res.hang, "\n", 2)[0])
+		if p.Cfg.MaxConc == 0 && strings.Contains(res.hang, "callers did not return") {
+			// callers that wait for their items were still waiting after 20 s although no concurrency limit holds exports back:
+			// their items stayed buffered far beyond any flush deadline (and beyond "immediately" when there is no timer)
+			c.fail("C09", "deadline-missed", fmt.Sprintf("accepted items were still not exported after 20 s (send_batch_size %d, timeout %d ms, no concurrency limit): %s",
+				p.Cfg.SendSize, p.Cfg.TimeoutMs, strings.SplitN(res.hang, "\n", 2)[0]))
+			c.fail("C06", "call-never-returned", "a Consume call with early_return off had not returned after 20 s although its context was alive and no export was outstanding")
+		}
 		return
 	}
 	sk := res.sink
@@ -999,6 +1026,23 @@ func validate(res *runResult, out *Output, run int, stats map[string]int) {
 			}
 		}
 	}
+	// ---- C09 "immediately when timeout or send_batch_size is zero": without a flush timer nothing may stay buffered from one
+	// loop iteration to the next — on the event log, when a shard receives a request (or ends) everything it received before
+	// has been handed to an export
+	if p.Cfg.TimeoutMs == 0 || p.Cfg.SendSize == 0 {
+		buffered := map[int]int{}
+		for _, e := range res.log {
+			switch e.Kind {
+			case "recv":
+				if buffered[e.Shard] > 0 {
+					c.fail("C09", "buffered-without-timer", fmt.Sprintf("no flush timer (send_batch_size %d, timeout %d ms) but %d items were still buffered in shard %d when it received its next request", p.Cfg.SendSize, p.Cfg.TimeoutMs, buffered[e.Shard], e.Shard))
+				}
+				buffered[e.Shard] += e.Num
+			case "send":
+				buffered[e.Shard] -= e.Num
+			}
+		}
+	}
 	// ---- C09 deadline (wall clock: generous, evidence first)
 	if p.Cfg.MaxConc == 0 {
 		recvT := map[int]time.Duration{}
@@ -1023,6 +1067,9 @@ func validate(res *runResult, out *Output, run int, stats map[string]int) {
 		limit := time.Duration(p.Cfg.TimeoutMs)*time.Millisecond*5 + 2*time.Second
 		if p.Trickle {
 			limit = time.Duration(p.Cfg.TimeoutMs)*time.Millisecond*5 + 200*time.Millisecond
+		}
+		if p.Cfg.TimeoutMs == 0 || p.Cfg.SendSize == 0 {
+			limit = 50 * time.Millisecond // no flush timer: a request leaves in the loop iteration that received it
 		}
 		limit += 4 * res.jitter
 		for id, ks := range exportsOf {
@@ -1367,9 +1414,12 @@ func timeCases(res *runResult, tb, pb *strings.Builder, nt, np *int) {
 	if p.Trickle {
 		delta = timeout*5 + 200000
 	}
+	timer := p.Cfg.TimeoutMs != 0 && p.Cfg.SendSize != 0
+	if !timer {
+		delta = 50000 // no flush timer: a request leaves in the loop iteration that received it
+	}
 	// the lateness the runtime is allowed grows with the scheduling jitter measured during this very run
 	delta += 4 * us(res.jitter)
-	timer := p.Cfg.TimeoutMs != 0 && p.Cfg.SendSize != 0
 	byShard := map[int][]cbp.VerifEvent{}
 	var order []int
 	for _, e := range res.log {
@@ -1654,6 +1704,12 @@ Definition e2e_cases : list e2e_t := [
 	stats := map[string]int{}
 	for i := 0; i < n; i++ {
 		forceTrickle = focus == "C09" && i%20 == 7
+		forceNoTimer = 0
+		if focus == "C09" && i%10 == 3 {
+			forceNoTimer = 1
+		} else if focus == "C09" && i%10 == 8 {
+			forceNoTimer = 2
+		}
 		p := genPlan(r.Fork(), focus)
 		if curFile != "" {
 			// a crash of the code under test takes the process down: leave the plan behind for the report
